@@ -61,10 +61,15 @@ def _mk(rng, **force):
         'tmpl_dtype': rng.choice(['float32', 'float64']), 'nan': rng.random() < 0.35, 'nan_template': rng.random() < 0.15,
         'attrs': rng.random() < 0.4, 'nonmono': rng.random() < 0.08, 'sparse': rng.random() < 0.3,
         'route': rng.choice(ROUTES), 'features': rng.random() < 0.25, 'tfeatures': rng.random() < 0.2,
-        'reorder': rng.random() < 0.25,
+        'reorder': rng.random() < 0.25, 'nan_partial': rng.random() < 0.15, 'one_channel': rng.random() < 0.06,
     }
     o.update(force)
-    sem = D.gen_semantic(rng, n_spikes=rng.randint(2, 9), n_templates=rng.randint(2, 4), n_channels=rng.randint(2, 5),
+    if o['one_channel']:
+        # a single channel: every per-channel array is squeezed to 0-d / 1-d and restored by atleast_1d/2d/3d, reshape(-1)
+        o['sparse'] = o['features'] = False
+        force = dict(force, curated=False)
+    sem = D.gen_semantic(rng, n_spikes=rng.randint(2, 9), n_templates=rng.randint(2, 4),
+                         n_channels=1 if o['one_channel'] else rng.randint(2, 5),
                          n_samples_wf=rng.randint(2, 4), features=bool(o['features']), template_features=bool(o['tfeatures']),
                          rate=rng.choice([128.0, 1024.0, 100.0, 30000.0, 25000.0]),
                          **{k: force[k] for k in ('curated', 'amplitudes', 'shanks', 'probes', 'whitening', 'similar', 'raw')
@@ -99,6 +104,10 @@ def _mk(rng, **force):
         files['channels.shanks%s.npy' % lab] = {'dtype': 'int32', 'shape': [nc], 'data': [rng.randrange(3) for _ in range(nc)]}
         files['channel_probe.npy'] = {'dtype': 'int32', 'shape': [nc], 'data': [rng.randrange(3) for _ in range(nc)]}
         files['channels.probes%s.npy' % lab] = {'dtype': 'int32', 'shape': [nc], 'data': [rng.randrange(3) for _ in range(nc)]}
+    if sem['shanks'] is not None and sem['n_channels'] >= 4 and sem['n_channels'] % 2 == 0 and rng.random() < 0.5:
+        # shanks stored as a 2-d table: the loader flattens it (reshape(-1))
+        sn = [n for n in files if n.startswith(('channel_shanks', 'channels.shanks'))][0]
+        files[sn]['shape'] = [sem['n_channels'] // 2, 2]
     if o['sparse']:
         # sparse template storage: (n_templates, n_samples, n_channels_loc) data + a column table of channel ids
         # (trailing -1 = unused column); no axis of length 1 (the loader squeezes)
@@ -138,6 +147,14 @@ def _mk(rng, **force):
         per = files[tn]['shape'][1] * files[tn]['shape'][2]
         k = rng.randrange(files[tn]['shape'][0])
         files[tn]['data'][k * per:(k + 1) * per] = ['nan'] * per
+    if o['nan_partial'] and sem['spike_clusters'] is None:
+        # a few NaN / inf entries inside a template: the template file is memory-mapped, so they must come back as they
+        # are (only fully loaded arrays are scrubbed, only ALL-NaN templates are zeroed).  Uncurated datasets only: with
+        # curated clusters phylib's cluster_waveforms does not accept NaN amplitudes (outside "well-formed").
+        tn = [n for n in files if n.startswith('templates') and 'Channels' not in n][0]
+        d = files[tn]['data']
+        for _ in range(rng.randint(1, 2)):
+            d[rng.randrange(len(d))] = rng.choice(['nan', 'inf', '-inf'])
     if o['nonmono'] and ns >= 2:
         tn = [n for n in files if n.startswith('spike_times') or n.startswith('spikes.times')][0]
         d = files[tn]['data']
@@ -186,6 +203,10 @@ def generate(tier, rng):
         dict(names='ks', reorder=True, vec2d=True), dict(names='alf', reorder=True, attrs=True),
         dict(names='ks', features=True, tfeatures=True, curated=True, sparse=False),
         dict(route='params_dup', raw=True), dict(route='params_alt', raw=True), dict(route='params', raw=False),
+        dict(nan_partial=True, curated=False, names='ks'), dict(nan_partial=True, curated=False, names='alf', sparse=True),
+        dict(id_dtype='float64', names='ks'), dict(id_dtype='float64', names='alf', write_clusters=True),
+        dict(one_channel=True, names='ks', whitening='diag', raw=True), dict(one_channel=True, names='alf', vec2d=True, shanks=True, probes=True),
+        dict(one_channel=True, whitening='none', similar=False),
     ]:
         for _ in range(3):
             cases.append({'kind': 'load', 'inp': _mk(rng, **force)})
@@ -361,7 +382,8 @@ def dist(case, obs):
     if case.get('kind') == 'malformed':
         return out + ['broken=%s' % o.get('broken')]
     for k in ('names', 'label', 'vec2d', 'write_clusters', 'id_dtype', 'time_dtype', 'cm_dtype', 'nan', 'nan_template',
-              'attrs', 'nonmono', 'write_wmi', 'alf_samples', 'sparse', 'route', 'features', 'tfeatures', 'reorder'):
+              'attrs', 'nonmono', 'write_wmi', 'alf_samples', 'sparse', 'route', 'features', 'tfeatures', 'reorder',
+              'nan_partial', 'one_channel'):
         out.append('%s=%s' % (k, o[k]))
     f = case['inp']['files']
     out.append('raw=%s' % bool(case['inp'].get('raw')))
